@@ -1,32 +1,723 @@
+// memdbchk drives the real leveldb/memdb and records what it answers (schema of
+// spec/MemDBTrace.tla, property C14).
+//
+//	-mode seq   one client: seeded programs of Put (new keys, overwrites with other
+//	            value lengths), Delete (present and absent keys), Get / Find /
+//	            Contains, iterators with and without ranges that are moved after
+//	            modifications, Release, Reset and reuse.  One line per completed
+//	            call with its reply and Len/Size/Free/Capacity read after it.
+//	-mode conc  one writer goroutine and 2-6 reader goroutines (point reads and
+//	            iterator walks) per epoch on one memdb; the writer logs wbeg/wend
+//	            around each call, the readers inv/resp, through the shared tracer
+//	            (mutex + global sequence number: file order is a real-time order).
+//	            Between epochs all iterators are released and the DB is Reset.
+//
+// A panic inside a call is recovered and logged as the call's error, which no
+// action of the specification explains.
 package main
 
 import (
+	"encoding/json"
+	"flag"
 	"fmt"
+	"math/rand"
+	"os"
+	"runtime"
+	"sort"
+	"sync"
+	"sync/atomic"
+	"time"
 
-	"github.com/syndtr/goleveldb/leveldb/comparer"
+	"github.com/syndtr/goleveldb/leveldb/iterator"
 	"github.com/syndtr/goleveldb/leveldb/memdb"
+	"github.com/syndtr/goleveldb/leveldb/util"
+
+	"verif/harness/internal/vt"
 )
 
-func main() {
-	db := memdb.New(comparer.DefaultComparer, 0)
-	for _, k := range []string{"a", "b", "c", "d"} {
-		db.Put([]byte(k), []byte("v"+k))
+func b2i(b bool) int {
+	if b {
+		return 1
 	}
-	it := db.NewIterator(nil)
-	it.Seek([]byte("b"))
-	fmt.Println("at", string(it.Key()))
-	db.Delete([]byte("b"))
-	db.Delete([]byte("c"))
-	fmt.Println("next", it.Next(), string(it.Key()), string(it.Value()), "contains c:", db.Contains([]byte("c")))
-	it.Seek([]byte("a"))
-	db.Delete([]byte("a"))
-	db.Put([]byte("b"), []byte("new"))
-	fmt.Println("next after del a, put b:", it.Next(), string(it.Key()))
-	fmt.Println(db.Capacity(), db.Size(), db.Free(), db.Len())
-	func() {
-		defer func() { fmt.Println("recover:", recover()) }()
-		it.Seek([]byte("d"))
-		db.Reset()
-		fmt.Println("next after reset", it.Next(), string(it.Key()))
+	return 0
+}
+
+// values: content ids shared by all goroutines
+type values struct {
+	mu sync.Mutex
+	g  *vt.ValueGen
+}
+
+func (v *values) fresh(l int) ([]byte, int) {
+	v.mu.Lock()
+	defer v.mu.Unlock()
+	return v.g.FreshLen(l)
+}
+
+func (v *values) lookup(b []byte) int {
+	v.mu.Lock()
+	defer v.mu.Unlock()
+	return v.g.In.Lookup(b)
+}
+
+var vlens = []int{0, 0, 1, 1, 2, 3, 5, 9, 9, 30, 30, 100, 300, 1000}
+
+type env struct {
+	tr    *vt.Tracer
+	u     *vt.Universe
+	vals  *values
+	db    *memdb.DB
+	nk    int // NK of the trace specification: rank of "no limit"
+	stats map[string]int
+	smu   sync.Mutex
+}
+
+func (e *env) count(kind string) {
+	e.smu.Lock()
+	e.stats[kind]++
+	e.smu.Unlock()
+}
+
+func errName(err error) string {
+	switch err {
+	case nil:
+		return "none"
+	case memdb.ErrNotFound:
+		return "notfound"
+	case memdb.ErrIterReleased:
+		return "released"
+	}
+	return "other:" + err.Error()
+}
+
+// guard runs f and turns a panic into an error name.
+func guard(f func()) (perr string) {
+	defer func() {
+		if r := recover(); r != nil {
+			perr = fmt.Sprintf("panic:%v", r)
+		}
 	}()
+	f()
+	return ""
+}
+
+func (e *env) rng(lo, hi int) *util.Range {
+	if lo == 0 && hi == e.nk {
+		return nil
+	}
+	r := &util.Range{}
+	if lo > 0 {
+		r.Start = e.u.Key(lo)
+	}
+	if hi < e.nk {
+		r.Limit = e.u.Key(hi)
+	}
+	return r
+}
+
+// pair ranks a key and identifies a value the DB handed out; -1 = not something the driver ever wrote.
+func (e *env) pair(k, v []byte) (int, int) {
+	return e.u.Rank(k), e.vals.lookup(v)
+}
+
+func (e *env) withStats(ev vt.Ev) vt.Ev {
+	ev["len"], ev["size"], ev["free"], ev["cap"] = e.db.Len(), e.db.Size(), e.db.Free(), e.db.Capacity()
+	return ev
+}
+
+// ---- the calls, shared by both modes ----
+
+type wop struct {
+	op     string
+	k      int
+	v, vl  int
+	val    []byte
+	keyLen int
+}
+
+func (e *env) genPut(k, vl int) wop {
+	val, id := e.vals.fresh(vl)
+	return wop{op: "put", k: k, v: id, vl: len(val), val: val, keyLen: len(e.u.Keys[k])}
+}
+
+func (o wop) ev(name string) vt.Ev {
+	return vt.Ev{"ev": name, "op": o.op, "k": o.k, "kl": o.keyLen, "v": o.v, "vl": o.vl}
+}
+
+func (e *env) doWrite(o wop) string {
+	var err error
+	if p := guard(func() {
+		switch o.op {
+		case "put":
+			err = e.db.Put(e.u.Key(o.k), append([]byte{}, o.val...))
+		case "del":
+			err = e.db.Delete(e.u.Key(o.k))
+		case "clear":
+			e.db.Reset()
+		}
+	}); p != "" {
+		return p
+	}
+	return errName(err)
+}
+
+// point reads: reply <<err, key, value>>
+func (e *env) doRead(op string, k int) (string, int, int) {
+	var (
+		err    error
+		rk, rv = -1, 0
+	)
+	if p := guard(func() {
+		key := e.u.Key(k)
+		switch op {
+		case "get":
+			var v []byte
+			if v, err = e.db.Get(key); err == nil {
+				rk, rv = k, e.vals.lookup(v)
+			}
+		case "find":
+			var fk, v []byte
+			if fk, v, err = e.db.Find(key); err == nil {
+				rk, rv = e.pair(fk, v)
+				if rk < 0 {
+					rk = -2 // a key nobody stored
+				}
+			}
+		case "has":
+			if e.db.Contains(key) {
+				rk, rv = k, 1
+			}
+		}
+	}); p != "" {
+		return p, -1, 0
+	}
+	return errName(err), rk, rv
+}
+
+// cursor move: reply ok, valid, key, value, error
+func (e *env) doMove(it iterator.Iterator, mv string, arg int) (ok, valid bool, k, v int, errs string) {
+	k, v = -1, 0
+	if p := guard(func() {
+		switch mv {
+		case "first":
+			ok = it.First()
+		case "last":
+			ok = it.Last()
+		case "next":
+			ok = it.Next()
+		case "prev":
+			ok = it.Prev()
+		case "seek":
+			ok = it.Seek(e.u.Key(arg))
+		}
+		valid = it.Valid()
+		if ok {
+			k, v = e.pair(it.Key(), it.Value())
+			if k < 0 {
+				k = -2
+			}
+		} else if it.Key() != nil || it.Value() != nil {
+			k = -3 // an invalid iterator must expose no pair
+		}
+		errs = errName(it.Error())
+	}); p != "" {
+		return false, false, -1, 0, p
+	}
+	return
+}
+
+// ---- sequential programs ----
+
+type sit struct {
+	it     iterator.Iterator
+	lo, hi int
+	pos    int  // rank the real iterator reported, -1 when not valid
+	det    bool // the key under the cursor was deleted since the cursor's last move
+	resrch bool // the last move was a Next from such a position: re-search before the next Next
+	rel    bool
+}
+
+type seq struct {
+	*env
+	r       *rand.Rand
+	its     map[int]*sit
+	order   []int
+	nextH   int
+	present map[int]bool
+	detNext int
+}
+
+func (s *seq) emit(ev vt.Ev) {
+	s.count(ev["ev"].(string))
+	s.tr.Emit(s.withStats(ev))
+}
+
+func (s *seq) write(o wop) {
+	err := s.doWrite(o)
+	ev := o.ev("write")
+	ev["err"] = err
+	s.count("w:" + o.op)
+	s.emit(ev)
+	if err != "none" {
+		return
+	}
+	switch o.op {
+	case "put":
+		s.present[o.k] = true
+	case "del":
+		delete(s.present, o.k)
+		for _, c := range s.its {
+			if !c.rel && c.pos == o.k {
+				c.det = true
+			}
+		}
+	case "clear":
+		s.present = map[int]bool{}
+	}
+}
+
+func (s *seq) anyPresent() (int, bool) {
+	if len(s.present) == 0 {
+		return 0, false
+	}
+	ks := make([]int, 0, len(s.present))
+	for k := range s.present {
+		ks = append(ks, k)
+	}
+	sort.Ints(ks) // map order is random
+	return ks[s.r.Intn(len(ks))], true
+}
+
+func (s *seq) newIter() {
+	n := s.u.N()
+	lo, hi := 0, s.nk
+	switch s.r.Intn(5) {
+	case 0, 1: // whole DB
+	case 2:
+		lo = s.r.Intn(n)
+	case 3:
+		hi = s.r.Intn(n)
+	default:
+		lo, hi = s.r.Intn(n), s.r.Intn(n)
+		if lo > hi && s.r.Intn(4) != 0 {
+			lo, hi = hi, lo
+		}
+	}
+	s.nextH++
+	h := s.nextH
+	s.its[h] = &sit{it: s.db.NewIterator(s.rng(lo, hi)), lo: lo, hi: hi, pos: -1}
+	s.order = append(s.order, h)
+	s.emit(vt.Ev{"ev": "iternew", "h": h, "lo": lo, "hi": hi})
+}
+
+func (s *seq) move(h int, mv string, arg int) {
+	c := s.its[h]
+	ok, valid, k, v, errs := s.doMove(c.it, mv, arg)
+	det := c.det && mv == "next" && !c.rel
+	if det {
+		s.detNext++
+	}
+	s.count("mv:" + mv)
+	s.emit(vt.Ev{"ev": "iter", "h": h, "mv": mv, "arg": arg, "ok": b2i(ok), "valid": b2i(valid), "k": k, "v": v,
+		"err": errs, "det": b2i(det)})
+	if c.rel {
+		return
+	}
+	c.pos = -1
+	if ok {
+		c.pos = k
+	}
+	c.resrch = det
+	c.det = false
+}
+
+func (s *seq) pickMove(c *sit) (string, int) {
+	x := s.r.Intn(100)
+	if c.resrch && x < 45 {
+		x = 45 + s.r.Intn(55)
+	}
+	switch {
+	case x < 45:
+		return "next", 0
+	case x < 65:
+		return "prev", 0
+	case x < 73:
+		return "first", 0
+	case x < 81:
+		return "last", 0
+	}
+	return "seek", s.r.Intn(s.u.N())
+}
+
+func (s *seq) liveIter() (int, *sit) {
+	var hs []int
+	for _, h := range s.order {
+		if !s.its[h].rel {
+			hs = append(hs, h)
+		}
+	}
+	if len(hs) == 0 {
+		return 0, nil
+	}
+	h := hs[s.r.Intn(len(hs))]
+	return h, s.its[h]
+}
+
+func (s *seq) release(h int) {
+	c := s.its[h]
+	c.it.Release()
+	c.rel = true
+	s.emit(vt.Ev{"ev": "iterrel", "h": h})
+}
+
+// gap: sit on a key, delete it, change what follows it, then call Next.
+func (s *seq) gap() {
+	h, c := s.liveIter()
+	if c == nil || c.pos < 0 {
+		return
+	}
+	x := c.pos
+	s.write(wop{op: "del", k: x})
+	n := s.u.N()
+	for j := s.r.Intn(3); j > 0; j-- {
+		k := x + 1 + s.r.Intn(3)
+		if k >= n {
+			break
+		}
+		if s.present[k] && s.r.Intn(2) == 0 {
+			s.write(wop{op: "del", k: k})
+		} else {
+			s.write(s.genPut(k, vlens[s.r.Intn(len(vlens))]))
+		}
+	}
+	if s.r.Intn(3) == 0 {
+		s.write(s.genPut(x, vlens[s.r.Intn(len(vlens))]))
+	}
+	s.move(h, "next", 0)
+}
+
+func (s *seq) step() {
+	n := s.u.N()
+	x := s.r.Intn(1000)
+	switch {
+	case x < 300:
+		k := s.r.Intn(n)
+		if p, ok := s.anyPresent(); ok && s.r.Intn(2) == 0 {
+			k = p // overwrite, usually with another length
+		}
+		s.write(s.genPut(k, vlens[s.r.Intn(len(vlens))]))
+	case x < 420:
+		k := s.r.Intn(n)
+		if p, ok := s.anyPresent(); ok && s.r.Intn(5) < 3 {
+			k = p
+		}
+		s.write(wop{op: "del", k: k})
+	case x < 640:
+		op := []string{"get", "find", "has"}[s.r.Intn(3)]
+		k := s.r.Intn(n)
+		err, rk, rv := s.doRead(op, k)
+		s.emit(vt.Ev{"ev": op, "k": k, "err": err, "rk": rk, "v": rv})
+	case x < 680:
+		live := 0
+		for _, c := range s.its {
+			if !c.rel {
+				live++
+			}
+		}
+		if live >= 4 {
+			h, _ := s.liveIter()
+			s.release(h)
+		}
+		s.newIter()
+	case x < 930:
+		h, c := s.liveIter()
+		if c == nil {
+			s.newIter()
+			return
+		}
+		for j := 1 + s.r.Intn(4); j > 0; j-- {
+			mv, arg := s.pickMove(c)
+			s.move(h, mv, arg)
+		}
+	case x < 936:
+		s.gap()
+	case x < 955:
+		if h, c := s.liveIter(); c != nil {
+			s.release(h)
+			if s.r.Intn(2) == 0 { // a released iterator answers nothing
+				mv, arg := s.pickMove(c)
+				s.move(h, mv, arg)
+				if s.r.Intn(2) == 0 {
+					c.it.Release()
+				}
+			}
+		}
+	case x < 970:
+		// Reset: outstanding iterators are released first (precondition), then the DB is reused
+		for _, h := range s.order {
+			if !s.its[h].rel {
+				s.release(h)
+			}
+		}
+		s.write(wop{op: "clear"})
+	default:
+		// a full forward or backward sweep through a fresh unranged iterator
+		s.newIter()
+		h := s.nextH
+		mv := []string{"next", "prev"}[s.r.Intn(2)]
+		for j := 0; j < len(s.present)+2; j++ {
+			s.move(h, mv, 0)
+		}
+		s.release(h)
+	}
+}
+
+// ---- concurrent histories ----
+
+type conc struct {
+	*env
+	nextH  int64
+	prog   int64
+	rcalls int64 // reader calls made in this epoch
+	rlive  int32 // readers still running
+	wcalls int64 // writer calls made in this epoch
+	start  chan struct{}
+}
+
+// The writer paces itself by the readers' progress so that its calls are spread over the
+// whole history instead of finishing before the readers get going.
+func (c *conc) writer(seed int64, nops, nr int, done *int32) {
+	r := rand.New(rand.NewSource(seed))
+	n := c.u.N()
+	<-c.start
+	for i := 0; i < nops; i++ {
+		if r.Intn(5) != 0 {
+			target := atomic.LoadInt64(&c.rcalls) + int64(1+r.Intn(2*nr))
+			for atomic.LoadInt64(&c.rcalls) < target && atomic.LoadInt32(&c.rlive) > 0 {
+				runtime.Gosched()
+			}
+		}
+		var o wop
+		if r.Intn(100) < 62 {
+			o = c.genPut(r.Intn(n), vlens[r.Intn(len(vlens))])
+		} else {
+			o = wop{op: "del", k: r.Intn(n)}
+		}
+		c.tr.Emit(o.ev("wbeg"))
+		yield(r, 2)
+		err := c.doWrite(o)
+		yield(r, 2)
+		c.tr.Emit(c.withStats(vt.Ev{"ev": "wend", "err": err}))
+		c.count("w:" + o.op)
+		atomic.AddInt64(&c.prog, 1)
+		atomic.AddInt64(&c.wcalls, 1)
+		switch r.Intn(6) {
+		case 0:
+			runtime.Gosched()
+		case 1:
+			time.Sleep(time.Duration(r.Intn(40)) * time.Microsecond)
+		}
+	}
+	atomic.StoreInt32(done, 1)
+}
+
+// yield lets other goroutines run while a call is open (between its two trace lines), so
+// that the windows of reader calls really contain writer activity.
+func yield(r *rand.Rand, oneIn int) {
+	if r.Intn(oneIn) == 0 {
+		runtime.Gosched()
+	}
+}
+
+type cit struct {
+	it iterator.Iterator
+	h  int
+}
+
+func (c *conc) reader(id int, seed int64, ncalls int, done *int32) {
+	r := rand.New(rand.NewSource(seed))
+	n := c.u.N()
+	var its []cit
+	for j := 1 + r.Intn(2); j > 0; j-- {
+		lo, hi := 0, c.nk
+		switch r.Intn(4) {
+		case 0:
+			lo = r.Intn(n)
+		case 1:
+			hi = r.Intn(n)
+		case 2:
+			lo, hi = r.Intn(n), r.Intn(n)
+			if lo > hi {
+				lo, hi = hi, lo
+			}
+		}
+		h := int(atomic.AddInt64(&c.nextH, 1))
+		its = append(its, cit{c.db.NewIterator(c.rng(lo, hi)), h})
+		c.tr.Emit(vt.Ev{"ev": "citernew", "h": h, "lo": lo, "hi": hi, "r": id})
+	}
+	defer atomic.AddInt32(&c.rlive, -1)
+	<-c.start
+	// keep going until the writer is done (bounded), so that calls overlap writes
+	for i := 0; (atomic.LoadInt32(done) == 0 || i < 8) && i < ncalls; i++ {
+		if r.Intn(10) == 0 {
+			// linger: let the writer change the contents under the parked cursors
+			target := atomic.LoadInt64(&c.wcalls) + int64(1+r.Intn(4))
+			for atomic.LoadInt64(&c.wcalls) < target && atomic.LoadInt32(done) == 0 {
+				atomic.AddInt64(&c.rcalls, 1) // the writer paces itself by this counter
+				runtime.Gosched()
+			}
+		}
+		if r.Intn(100) < 30 {
+			op := []string{"get", "find", "has"}[r.Intn(3)]
+			k := r.Intn(n)
+			c.tr.Emit(vt.Ev{"ev": "inv", "r": id, "op": op, "k": k, "h": 0, "mv": "none", "arg": 0})
+			yield(r, 3)
+			err, rk, rv := c.doRead(op, k)
+			yield(r, 3)
+			c.tr.Emit(vt.Ev{"ev": "resp", "r": id, "err": err, "k": rk, "v": rv})
+			c.count(op)
+		} else {
+			x := its[r.Intn(len(its))]
+			mv, arg := "next", 0
+			switch y := r.Intn(100); {
+			case y < 55:
+			case y < 70:
+				mv = "prev"
+			case y < 77:
+				mv = "first"
+			case y < 84:
+				mv = "last"
+			default:
+				mv, arg = "seek", r.Intn(n)
+			}
+			c.tr.Emit(vt.Ev{"ev": "inv", "r": id, "op": "iter", "k": 0, "h": x.h, "mv": mv, "arg": arg})
+			yield(r, 3)
+			ok, valid, k, v, errs := c.doMove(x.it, mv, arg)
+			yield(r, 3)
+			if errs == "none" && ok != valid {
+				errs = "valid-differs"
+			}
+			c.tr.Emit(vt.Ev{"ev": "resp", "r": id, "err": errs, "k": k, "v": v})
+			c.count("mv:" + mv)
+		}
+		atomic.AddInt64(&c.prog, 1)
+		atomic.AddInt64(&c.rcalls, 1)
+		if r.Intn(8) == 0 {
+			runtime.Gosched()
+		}
+	}
+	for _, x := range its {
+		x.it.Release()
+		c.tr.Emit(vt.Ev{"ev": "citerrel", "h": x.h})
+	}
+}
+
+func main() {
+	mode := flag.String("mode", "seq", "seq | conc")
+	seed := flag.Int64("seed", 1, "seed")
+	n := flag.Int("n", 600, "seq: program steps; conc: writer calls per epoch")
+	epochs := flag.Int("epochs", 3, "conc: epochs (Reset and reuse between them)")
+	readers := flag.Int("readers", 0, "conc: reader goroutines (0: 2-6 by seed)")
+	nk := flag.Int("nk", 24, "NK of spec/MemDBTrace.cfg")
+	nkeys := flag.Int("nkeys", 0, "distinct keys (0: by seed)")
+	cmpKind := flag.Int("cmp", -1, "comparer kind 0 1 2 (-1: by seed)")
+	out := flag.String("out", "", "trace file")
+	hang := flag.Int("hang", 60, "seconds without progress after which the run is abandoned (exit 2)")
+	flag.Parse()
+
+	rng := rand.New(rand.NewSource(*seed))
+	kind := *cmpKind
+	if kind < 0 {
+		kind = int(*seed % 3)
+	}
+	cmp := vt.RefCmp{Kind: kind}
+	nkk := *nkeys
+	if nkk == 0 {
+		if *mode == "conc" {
+			nkk = 4 + rng.Intn(7)
+		} else {
+			nkk = []int{3, 6, 10, 16, 24}[rng.Intn(5)]
+		}
+	}
+	if nkk > *nk {
+		nkk = *nk
+	}
+	capacity := []int{0, 0, 64, 4096, 1 << 20}[rng.Intn(5)]
+	tr, err := vt.NewTracer(*out)
+	if err != nil {
+		fmt.Fprintln(os.Stderr, err)
+		os.Exit(2)
+	}
+	e := &env{tr: tr, u: vt.NewUniverse(cmp, nkk, *seed, true), nk: *nk, stats: map[string]int{},
+		vals: &values{g: vt.NewValueGen(*seed, vlens)}}
+	e.db = memdb.New(cmp, capacity)
+	row := fmt.Sprintf("cmp=%d nkeys=%d cap=%d", kind, e.u.N(), capacity)
+	tr.Emit(vt.Ev{"ev": "reset", "mode": *mode, "seed": *seed, "cap": capacity, "row": row})
+	start := time.Now()
+	sum := map[string]interface{}{"mode": *mode, "seed": *seed, "row": row}
+
+	if *mode == "seq" {
+		s := &seq{env: e, r: rng, its: map[int]*sit{}, present: map[int]bool{}}
+		for i := 0; i < *n; i++ {
+			s.step()
+		}
+		for _, h := range s.order {
+			if !s.its[h].rel {
+				s.release(h)
+			}
+		}
+		sum["det_next"] = s.detNext
+	} else {
+		c := &conc{env: e, nextH: 1000}
+		nr := *readers
+		if nr == 0 {
+			nr = 2 + rng.Intn(5)
+		}
+		sum["readers"] = nr
+		go func() { // watchdog: a hang is trouble of the run, not a verdict
+			last, since := int64(-1), time.Now()
+			for {
+				time.Sleep(500 * time.Millisecond)
+				if p := atomic.LoadInt64(&c.prog); p != last {
+					last, since = p, time.Now()
+				} else if time.Since(since) > time.Duration(*hang)*time.Second {
+					fmt.Fprintln(os.Stderr, "memdbchk: no progress")
+					os.Exit(2)
+				}
+			}
+		}()
+		for ep := 0; ep < *epochs; ep++ {
+			var wg sync.WaitGroup
+			var done int32
+			wg.Add(1 + nr)
+			c.start, c.rcalls, c.wcalls, c.rlive = make(chan struct{}), 0, 0, int32(nr)
+			wseed := rng.Int63()
+			go func() { defer wg.Done(); c.writer(wseed, *n, nr, &done) }()
+			ws := make([]int64, nr)
+			for i := range ws {
+				ws[i] = rng.Int63()
+			}
+			for i := 0; i < nr; i++ {
+				go func(i int) { defer wg.Done(); c.reader(i+1, ws[i], 6**n, &done) }(i)
+			}
+			close(c.start)
+			wg.Wait()
+			// quiescent: Reset and reuse
+			o := wop{op: "clear"}
+			errs := c.doWrite(o)
+			ev := o.ev("write")
+			ev["err"] = errs
+			tr.Emit(c.withStats(ev))
+			c.count("w:clear")
+		}
+	}
+	sum["events"] = tr.N()
+	sum["stats"] = e.stats
+	sum["wall_s"] = time.Since(start).Seconds()
+	if err := tr.Close(); err != nil {
+		fmt.Fprintln(os.Stderr, err)
+		os.Exit(2)
+	}
+	b, _ := json.Marshal(sum)
+	fmt.Println(string(b))
 }
